@@ -34,6 +34,9 @@ KINDS = ['equal', 'approx', 'student', 'student', 'bonf', 'holm', 'metadata', 't
 def gen(rng, tier, run):
     kind = rng.choice(KINDS)
     case = {'kind': kind, 'rep': rng.choice(['table', 'table', 'fulltable', 'full'])}
+    if rng.random() < 0.3:
+        # the message of a failed evaluation is whatever str(exception) gives: empty for a bare assert, several lines, markup
+        case['failmsg'] = rng.choice(['', '', 'two\nlines', 'with `backquote', ' '])
     if kind in ('tasks', 'tests', 'bylabels'):
         sub = c18.gen(rng, tier, run)
         if kind == 'bylabels' and not sub['byLabels']:
@@ -300,7 +303,7 @@ def run_impl(case, run):
     out = {}
     try:
         test = build(case)
-        res = TestResultFailed(test, 'scripted failure') if case['kind'] == 'failed' else test.evaluate()
+        res = TestResultFailed(test, case.get('failmsg', 'scripted failure')) if case['kind'] == 'failed' else test.evaluate()
         out['verdict'] = bool(res)
         out['abstract'] = masks_of(case, res)
         if case['kind'] in ('bonf', 'holm'):
@@ -345,12 +348,17 @@ def run_impl(case, run):
                             orows, ohl, osz = table_cells(one)
                             entry['index'] = {'i': idx, 'rows': orows, 'hl': ohl, 'hlsizes': osz,
                                               'text_rows': docutils_cells(str(RstTable(one)))[1]}
+                        except Exception as exc:  # pylint: disable=broad-except
+                            entry['slice_error'] = f'{type(exc).__name__}: {exc}'[:160]
+                    # joining: any table whose columns are flat (arrays or lists; the by-labels tables hold lists)
+                    if all(np.ndim(c) == 1 for c in tmpl.columns) and len(out['tables']) < 3:
+                        try:
                             j = tmpl.copy()
                             j.join(tmpl)
                             jrows, jhl, jsz = table_cells(j)
                             entry['join'] = {'rows': jrows, 'hl': jhl, 'hlsizes': jsz}
                         except Exception as exc:  # pylint: disable=broad-except
-                            entry['slice_error'] = f'{type(exc).__name__}: {exc}'[:160]
+                            entry['slice_error'] = f'join: {type(exc).__name__}: {exc}'[:160]
                     out['tables'].append(entry)
                 else:
                     outs.append(['plot'])
@@ -372,7 +380,7 @@ def run_impl(case, run):
         # with another outcome: what it writes does not depend on what it wrote before
         if case['rep'] in ('table', 'fulltable'):
             from valjean.javert.rst import Rst
-            twin = test.evaluate() if case['kind'] == 'failed' else TestResultFailed(test, 'scripted failure')
+            twin = test.evaluate() if case['kind'] == 'failed' else TestResultFailed(test, case.get('failmsg', 'scripted failure'))
             seq = [twin, res] if case.get('slice', [0, 0])[0] % 2 else [res, twin]
             out['rst'] = []
             for verb in range(1, 6):
@@ -570,8 +578,8 @@ def oracle(case, impl, run):
                     got = [[[c[0].strip(), c[1]] for c in r] for r in (entry['index']['text_rows'] or [])]
                     if got != exp and all(c.strip() for c in want_rows[0]):
                         fails.append(('slice_aligned', f'table[{i}]: the written row reads back as {got}, expected {exp}'[:400]))
-            if 'join' in entry and (entry['join']['rows'] != entry['rows'] * 2 or entry['join']['hl'] != entry['hl'] * 2):
-                fails.append(('join_aligned', f'joining the table at verbosity {entry["verb"]} with itself: highlights {entry["join"]["hl"]}'[:300]))
+        if 'join' in entry and (entry['join']['rows'] != entry['rows'] * 2 or entry['join']['hl'] != entry['hl'] * 2):
+            fails.append(('join_aligned', f'joining the table at verbosity {entry["verb"]} with itself: highlights {entry["join"]["hl"]}'[:300]))
         # the rows of a detailed table are the bins they claim to be
         if entry['kind'] in ('equal', 'approx', 'student') and 'values' in impl:
             masks = (impl['first']['abstract'] if case['kind'] in ('bonf', 'holm') else impl['abstract'])['masks']
